@@ -115,7 +115,12 @@ pub fn eval_field(doc: &mut Document, field: &str) -> String {
             // the concrete filter type is not observable through `dyn CryptFilter`; names only
             Ok(format!("{}{}", m.len(), m.keys().map(|k| format!(":{}", hex_tok(k))).collect::<String>()))
         }),
-        "iter" => run_field(|| { let v: Vec<ObjectId> = doc.page_iter().collect(); Ok(format!("{},{},{}", v.len(), v.capacity(), ids_str(&v))) }),
+        "iter" => run_field(|| {
+            let v: Vec<ObjectId> = doc.page_iter().collect();
+            // the same enumeration polled by hand and polled AGAIN after None (FusedIterator): nothing more may come, no panic, no loop
+            let mut it = doc.page_iter(); let mut w: Vec<ObjectId> = vec![]; while let Some(p) = it.next() { w.push(p); }
+            let again = (0..4).filter(|_| it.next().is_some()).count();
+            Ok(format!("{}{},{},{}", if again == 0 && w == v { "" } else { "REPOLL" }, v.len(), v.capacity(), ids_str(&v))) }),
         "pages" => run_field(|| {
             let m = doc.get_pages();
             let ok = m.keys().enumerate().all(|(i, k)| *k as usize == i + 1);
